@@ -721,12 +721,32 @@ impl Stringify for Value {
                 double_brace_location,
                 binding_map_keys: _,
             } => {
+                // only chains built from mixed text (`a{{b}}c`) can be printed as mixed text:
+                // every piece is a static string or a binding converted to string;
+                // a user-written `'a' + b` must stay an expression
+                fn is_text_piece(expr: &Expression) -> bool {
+                    match expr {
+                        Expression::ToStringWithoutUndefined { .. } | Expression::LitStr { .. } => true,
+                        Expression::Plus { left, right, .. } => {
+                            is_text_piece(left) && is_text_piece(right)
+                        }
+                        _ => false,
+                    }
+                }
+                fn starts_with_binding(expr: &Expression) -> bool {
+                    match expr {
+                        Expression::ToStringWithoutUndefined { .. } => true,
+                        Expression::Plus { left, .. } => starts_with_binding(left),
+                        _ => false,
+                    }
+                }
                 fn split_expression<'s, W: FmtWrite>(
                     expr: &Expression,
                     stringifier: &mut Stringifier<'s, W>,
                     start_location: &Range<Position>,
                     end_location: &Range<Position>,
                     is_whole_expr: bool,
+                    binding_follows: bool,
                 ) -> FmtResult {
                     match expr {
                         // (a whitespace-only string literal which is the whole expression stays a
@@ -739,8 +759,8 @@ impl Stringify for Value {
                                     .is_empty()) =>
                         {
                             let mut text = escape_html_body(value).into_owned();
-                            if !is_whole_expr && text.ends_with('{') {
-                                // a binding may follow: `{` + `{{` would be read as `{{` + `{`
+                            if binding_follows && text.ends_with('{') {
+                                // `{` + `{{` would be read as `{{` + `{`
                                 text.pop();
                                 text.push_str("&#123;");
                             }
@@ -758,23 +778,24 @@ impl Stringify for Value {
                             right,
                             location,
                         } => {
-                            // only chains built from mixed text (`a{{b}}c`) can be printed as mixed text:
-                            // every piece is a static string or a binding converted to string;
-                            // a user-written `'a' + b` must stay an expression
-                            fn is_text_piece(expr: &Expression) -> bool {
-                                match expr {
-                                    Expression::ToStringWithoutUndefined { .. }
-                                    | Expression::LitStr { .. } => true,
-                                    Expression::Plus { left, right, .. } => {
-                                        is_text_piece(left) && is_text_piece(right)
-                                    }
-                                    _ => false,
-                                }
-                            }
                             let split = is_text_piece(left) && is_text_piece(right);
                             if split {
-                                split_expression(&left, stringifier, start_location, location, false)?;
-                                split_expression(&right, stringifier, location, end_location, false)?;
+                                split_expression(
+                                    &left,
+                                    stringifier,
+                                    start_location,
+                                    location,
+                                    false,
+                                    starts_with_binding(right),
+                                )?;
+                                split_expression(
+                                    &right,
+                                    stringifier,
+                                    location,
+                                    end_location,
+                                    false,
+                                    binding_follows,
+                                )?;
                                 return Ok(());
                             }
                         }
@@ -791,6 +812,7 @@ impl Stringify for Value {
                     &double_brace_location.0,
                     &double_brace_location.1,
                     true,
+                    false,
                 )?;
             }
         }
